@@ -27,7 +27,7 @@ from vlib.front import unparse, dotted, const_value, AnchorMissing
 
 ALF = 'phylib/io/alf.py'
 M = 'phylib/io/model.py'
-FLOOR = 50
+FLOOR = 41
 SUBSET = ['_phy_spikes_subset.waveforms.npy', '_phy_spikes_subset.spikes.npy', '_phy_spikes_subset.channels.npy']
 EXPLANATION = ('fx engine over the call tree of EphysAlfCreator.convert with symbolic roots SRC / OUT (the model shares SRC) against the '
                'directory-role whitelist; tab rules compare the file names written by the exporter (direct saves and copy table), with '
